@@ -45,4 +45,25 @@ CHECKS = {
         need_classes=["class:empty", "class:tiny", "class:framed-hostile", "class:framed-near-valid", "class:mutated-valid", "reached-group-splitting", "capacity-clamped"],
         assumptions=["a single parser call on an input <= 8 KiB taking more than 20 s wall clock is a hang (expected cost: microseconds to milliseconds)"],
     ),
+    "C06": dict(
+        level="exploration",
+        rule="rapid-generated inbound histories (Logons with every combination of heartbeat-interval class, method class, credentials, damage; heartbeats, test requests, resend requests, logouts, application/unknown types; local sends and logouts; bounded virtual-time advances) run against the real handler+session in a synctest bubble; a monitor re-derives from the history when the session may be logged on and what each Logon must be answered with; non-trivial = history holds a refused/damaged Logon AND an acceptable one, or a Logon while logged on; distinct by the abstract sequence of (Logon verdict, model state)",
+        jobs=[dict(pkg="sess", test="TestC06", quick=8000, thorough=400000, shards=16)],
+        need_classes=["role:acceptor", "role:initiator", "logon-while-logged-on", "refused-or-damaged-logon", "acceptable-logon"],
+        assumptions=["virtual clock (testing/synctest): outputs are attributed to the step that caused them by synctest.Wait", "time advances stay below the smallest negotiable heartbeat interval so that no timer acts in these histories", "a Logon without MsgSeqNum is not judged (the library accepts it; the property does not say)"],
+    ),
+    "C14": dict(
+        level="exploration",
+        rule="logged-on sessions of both roles receive TestRequests with generated TestReqIDs (1-5000 bytes, any byte but SOH, decoys like 112=x, 10=000) singly and in bursts of 2-8 inbound messages (test requests mixed with heartbeats, resend requests, application messages, Logon-while-logged-on) delivered without waiting; monitor: exactly one fresh Heartbeat per TestRequest, byte-identical TestReqID, in request order and before Rejects answering later inbound messages; non-trivial = an ID with a non-alphanumeric byte or a burst with >=2 TestRequests; distinct by (role, per-step request count and ID class)",
+        jobs=[dict(pkg="sess", test="TestC14", quick=10000, thorough=400000, shards=16)],
+        need_classes=["role:acceptor", "role:initiator", "burst:[2-9]:.*", "in:1:special"],
+        assumptions=["retransmissions (outputs whose MsgSeqNum is not above every number seen before) are answers to ResendRequests and are not counted as Heartbeat answers"],
+    ),
+    "C07": dict(
+        level="exploration",
+        rule="histories that contain no acceptable Logon by construction (every Logon refused or damaged; for the initiator every Logon damaged), rich in ResendRequests over all ranges, test requests, heartbeats, logouts, application/unknown types and idle stretches up to 10 virtual minutes, against an empty message store or one already holding the messages of an earlier logged-on session on the same memory.Storage; monitor: every emitted message has MsgType A, 5 or 3 and none is byte-identical to a message of the earlier session; non-trivial = store pre-populated AND a ResendRequest range intersecting it, or total idle time >= the largest permitted interval; distinct by abstract history",
+        jobs=[dict(pkg="sess", test="TestC07", quick=8000, thorough=400000, shards=16)],
+        need_classes=["role:acceptor", "role:initiator", "store-prepopulated", "resend-range-intersects-store", "idle-longer-than-max-interval"],
+        assumptions=["the earlier session ran to completion before the unauthenticated connection starts (a session running in parallel is not generated)"],
+    ),
 }
